@@ -25,6 +25,7 @@ type scenario struct {
 	Dest   int           `json:"dest"`
 	CtxDL  bool          `json:"ctx_deadline"`    // the caller's context carries a far-away deadline
 	CtxAt  time.Duration `json:"ctx_deadline_at"` // >0: the caller's context deadline expires at this instant (mid-try)
+	Cfg    int           `json:"cfg"`             // client logging configuration (cli.NewCfg)
 }
 
 var dests = []*net.UDPAddr{
@@ -55,7 +56,7 @@ func run(t *testing.T, sc scenario, want []byte, xid uint32) (res result) {
 	f := fam(sc.Fam)
 	synctest.Test(t, func(t *testing.T) {
 		conn := sconn.New(0)
-		c, err := f.New(conn, sc.T, sc.N)
+		c, err := f.NewCfg(conn, sc.T, sc.N, sc.Cfg)
 		if err != nil {
 			t.Fatal(err)
 		}
@@ -254,10 +255,10 @@ func grid(quick bool) []scenario {
 				for _, ex := range extras {
 					for d := 0; d < len(dests); d++ {
 						for _, dl := range []bool{false, true} {
-							out = append(out, scenario{fm, T, n, -1, "", ex, d, dl, 0})
+							out = append(out, scenario{fm, T, n, -1, "", ex, d, dl, 0, len(out) % cli.NCfg})
 							if n >= 2 && !dl { // the context's deadline expires in the middle of try 1 / try 2
-								out = append(out, scenario{Fam: fm, T: T, N: n, Accept: -1, Extra: ex, Dest: d, CtxAt: T + T/2})
-								out = append(out, scenario{Fam: fm, T: T, N: n, Accept: -1, Extra: ex, Dest: d, CtxAt: T / 3})
+								out = append(out, scenario{Fam: fm, T: T, N: n, Accept: -1, Extra: ex, Dest: d, CtxAt: T + T/2, Cfg: len(out) % cli.NCfg})
+								out = append(out, scenario{Fam: fm, T: T, N: n, Accept: -1, Extra: ex, Dest: d, CtxAt: T / 3, Cfg: len(out) % cli.NCfg})
 							}
 							kmax := n
 							if n < 0 {
@@ -265,7 +266,7 @@ func grid(quick bool) []scenario {
 							}
 							for k := 0; k < kmax; k++ {
 								for _, off := range []string{"start", "middle", "last"} {
-									out = append(out, scenario{fm, T, n, k, off, ex, d, dl, 0})
+									out = append(out, scenario{fm, T, n, k, off, ex, d, dl, 0, len(out) % cli.NCfg})
 								}
 							}
 						}
